@@ -166,7 +166,8 @@ def evaluate__minus_operator(self: XPathToken, context: ta.ContextType = None) \
 @method('+')
 @method('-')
 def nud__plus_minus_operators(self: XPathToken) -> XPathToken:
-    self[:] = self.parser.expression(rbp=70),
+    # XPath 1.0: UnaryExpr ::= UnionExpr | '-' UnaryExpr, so -a | b means -(a | b)
+    self[:] = self.parser.expression(rbp=45 if self.parser.version == '1.0' else 70),
     return self
 
 
